@@ -3,7 +3,7 @@
 # compile does not fail the setup: it is reported by the check of the property it belongs to.
 cd "$(dirname "$0")"
 mkdir -p build evidence replays
-export PYTHONPATH="/verif/harness"
+export PYTHONPATH="$(pwd)/harness"
 /venv/bin/python - <<'PY'
 import vlib, sys
 ok, log = vlib.coq_make()
